@@ -11,7 +11,7 @@ and the state-changing iterator/“getter” calls), `run e ops` a finite histor
 `Getter`/`obs` the public getters, `Getter.group` the group of fields a getter
 reads and `touches op G` whether a call can change that group.
 -/
-import LA.Lemmas.EntryHist
+import LA.Lemmas.EntryInv2
 set_option linter.unusedSimpArgs false
 set_option maxRecDepth 4000
 namespace LA.C14
@@ -75,13 +75,6 @@ theorem time_unset (f : TimeField) (e : Entry) :
   cases f <;>
     simp (disch := decide) [unsetTimeCore, setTimeCore, Entry.withTime, timeSec, timeNsec, timeIsSet, Entry.has,
       TimeField.flag, hasF_andnot_self]
-
-theorem u64ToI64_of_small (n : Int) (h0 : 0 ≤ n) (h1 : n ≤ 9223372036854775807) : u64ToI64 n.toNat = n := by
-  unfold u64ToI64 two64
-  have : (n.toNat : Int) = n := Int.toNat_of_nonneg h0
-  have h2 : n.toNat % 18446744073709551616 = n.toNat := Nat.mod_eq_of_lt (by omega)
-  rw [h2]
-  split <;> omega
 
 /-- `set_size`: negative becomes 0; the value survives the `uint64_t` field and the
 `la_int64_t` return type for every int64 argument. -/
@@ -228,8 +221,6 @@ theorem fflags_get_set (e : Entry) (s c : Nat) : fflags (setFflags e s c) = (s %
 theorem symlink_type_get_set (e : Entry) (t : Int) : symlinkType (setSymlinkType e t) = t := rfl
 theorem mac_metadata_get_set (e : Entry) (v : Option Bytes) : macMetadata (copyMacMetadata e v) = normMac v := rfl
 
-theorem bv8_or_and_self (x a : BitVec 8) : (x ||| a) &&& a = a := bv_or_and_self x a
-
 theorem encryption_get_set (e : Entry) (b : Bool) :
     isDataEncrypted (setIsDataEncrypted e b) = b ∧
     isMetadataEncrypted (setIsDataEncrypted e b) = isMetadataEncrypted e ∧
@@ -240,5 +231,267 @@ theorem encryption_get_set (e : Entry) (b : Bool) :
       bv_or_and_self, bv_andnot_and_self, bv_or_and_disj, bv_andnot_and_disj] <;> decide
 
 example : isEncrypted (setIsMetadataEncrypted (setIsDataEncrypted new true) true) = 3 := by decide
+
+/-! ## setters do not disturb unrelated getters -/
+
+/-- Frame property, all (operation, getter) pairs at once: a call that does not touch
+the group of fields a getter reads leaves that getter's value unchanged.  `touches`
+is the dependency table; e.g. `set_filetype` does not touch the `perm` group,
+`set_hardlink` touches `link` and `strmode` only, `copy_stat` touches 17 groups. -/
+theorem frame (op : Op) (g : Getter) (e e' : Entry) (ht : touches op g.group = false)
+    (hs : step e op = some e') : obs g e' = obs g e :=
+  obs_of_view g e' e (step_untouched g.group op e e' ht hs)
+
+example : obs .perm (setFiletype (setMode new 0o100644#32) 0o040000#32) = obs .perm (setMode new 0o100644#32) :=
+  frame (.setFiletype _) .perm _ _ rfl rfl
+example : touches (.setSymlink (some [97])) Getter.hardlink.group = true ∧
+    touches (.setUid 5) Getter.hardlink.group = false := by decide
+
+/-! ## histories -/
+
+/-- **history_relevant.**  For every finite history of setters, unsetters, copy_stat,
+clear and iterator calls, and every getter: the value after the history equals the value
+after only those calls of the history that touch the getter's group, in their original
+order (and that shorter history is defined whenever the long one is).  Calls on other
+groups — however many, with whatever arguments — are irrelevant. -/
+theorem history_relevant (g : Getter) (ops : List Op) (e e' : Entry) (hr : run e ops = some e') :
+    ∃ e'', run e (ops.filter (touches · g.group)) = some e'' ∧ obs g e' = obs g e'' := by
+  obtain ⟨e'', h1, h2⟩ := run_view_relevant g.group ops e e e' rfl hr
+  exact ⟨e'', h1, obs_of_view g e' e'' h2⟩
+
+example : ∃ e', run new [.setUid 7, .setStr .pathname (some [97]), .setMode 0o644#32, .setUid (-1), .xattrAdd [1] [2]] = some e' ∧
+    obs .uid e' = .int 0 := ⟨_, rfl, by decide⟩
+
+/-- **history_last_writer.**  If the last call of a history that touches the getter's
+group is one that `fixes` the getter (a plain setter/unsetter of that field, `copy_stat`
+for the stat fields, `clear` for everything …), then the getter returns what that one
+call yields on *any* entry: nothing that happened before it matters, and nothing that
+happened after it does either. -/
+theorem history_last_writer (g : Getter) (op : Op) (pre post : List Op) (e e' e0 e0' : Entry)
+    (hf : fixes op g = true) (hpost : ∀ o ∈ post, touches o g.group = false)
+    (hr : run e (pre ++ op :: post) = some e') (h0 : step e0 op = some e0') : obs g e' = obs g e0' := by
+  rw [run_append] at hr
+  cases hp : run e pre with
+  | none => simp [hp] at hr
+  | some m =>
+    simp only [hp, Option.bind_some, run_cons] at hr
+    cases hs : step m op with
+    | none => simp [hs] at hr
+    | some m' =>
+      simp only [hs, Option.bind_some] at hr
+      rw [obs_of_view g e' m' (run_untouched g.group post m' e' hpost hr)]
+      exact fixes_sound op g m e0 m' e0' hf hs h0
+
+example : ∃ e', run new ([.setSymlink (some [1]), .setMode 0o777#32, .setHardlink (some [2])] ++
+      .copyHardlink (some [3]) :: [.setUid 5, .xattrAdd [9] [9], .setStr .pathname none]) = some e' ∧
+    obs .symlink e' = .str none ∧ obs .hardlink e' = .str (some [3]) := ⟨_, rfl, by decide⟩
+
+/-! ## the is-set flags -/
+
+/-- **isset_truthful.**  After any history on a new entry: a getter whose is-set flag
+reads false returns the initial value (0 / NULL).  (The other direction — a setter
+raises its flag, an unsetter lowers it — is part of each `*_get_set` theorem.) -/
+theorem isset_truthful (ops : List Op) (e : Entry) (hr : run new ops = some e) :
+    (∀ f, timeIsSet f e = false → timeSec f e = 0 ∧ timeNsec f e = 0) ∧
+    (sizeIsSet e = false → size e = 0) ∧
+    (devIsSet e = false → dev e = 0 ∧ devmajor e = 0 ∧ devminor e = 0) ∧
+    (rdevIsSet e = false → rdev e = 0 ∧ rdevmajor e = 0 ∧ rdevminor e = 0) ∧
+    (inoIsSet e = false → ino e = 0) ∧ (uidIsSet e = false → uid e = 0) ∧ (gidIsSet e = false → gid e = 0) ∧
+    (filetypeIsSet e = false → filetype e = 0) ∧ (permIsSet e = false → perm e = 0) ∧
+    (hardlinkIsSet e = false → hardlink e = none) := by
+  obtain ⟨h1, h2, h3, h4, h5, h6, h7, h8⟩ :=
+    run_invariant Truthful (fun e e' op hs h => truthful_step e e' op hs h) ops new e hr truthful_new
+  refine ⟨h1, ?_, ?_, ?_, h4, h5, h6, h7, h8, ?_⟩
+  · intro h; simp only [size, h2 h]; decide
+  · intro h
+    obtain ⟨a, b⟩ := h3 h
+    simp only [dev, devmajor, devminor, a, b, Bool.false_eq_true, if_false]
+    exact ⟨trivial, by decide, by decide⟩
+  · intro h; simp [rdev, rdevmajor, rdevminor, h]
+  · intro h; simp only [hardlinkIsSet] at h; simp [hardlink, h]
+
+example : ∃ e, run new [.setSize 5, .unsetSize, .setTime .mtime 3 4, .unsetTime .mtime] = some e ∧
+    sizeIsSet e = false ∧ timeIsSet .mtime e = false := ⟨_, rfl, by decide⟩
+
+/-! ## hard link versus symlink -/
+
+/-- **hardlink_symlink_exclusive** (after fix bffd94f).  After any history on a new
+entry at most one of `hardlink()` and `symlink()` returns a target. -/
+theorem hardlink_symlink_exclusive (ops : List Op) (e : Entry) (hr : run new ops = some e) :
+    ¬(e.has fHARDLINK = true ∧ e.has fSYMLINK = true) ∧ (hardlink e = none ∨ symlink e = none) := by
+  have hx : Excl e := run_invariant Excl (fun e e' op hs h => excl_step e e' op hs h) ops new e hr
+    (by simp only [Excl, new, Entry.has]; rw [hasF_zero]; simp)
+  refine ⟨hx, ?_⟩
+  unfold Excl at hx
+  simp only [hardlink, symlink]
+  cases h1 : e.has fHARDLINK <;> cases h2 : e.has fSYMLINK <;> simp_all
+
+/-- On the unrepaired code the property failed: there `copy_hardlink` kept the symlink flag.
+The model of that variant, for the record, and the witness (replayed by the corpus file
+`ent.hardlink-after-symlink.ops`). -/
+def copyHardlinkUnfixed (e : Entry) (v : Option Bytes) : Entry :=
+  bif v.isNone && e.has fSYMLINK then e else
+  let e1 := { e with ae_linkname := v }
+  bif v.isSome then { e1 with ae_set := e1.ae_set ||| fHARDLINK }
+  else { e1 with ae_set := e1.ae_set &&& ~~~fHARDLINK }
+theorem unfixed_not_exclusive :
+    hardlink (copyHardlinkUnfixed (setSymlink new (some [97])) (some [98])) = some [98] ∧
+    symlink (copyHardlinkUnfixed (setSymlink new (some [97])) (some [98])) = some [98] := by decide
+
+/-! ## the sparse map and the xattr list -/
+
+/-- **sparse_list_wellformed.**  After any history on a new entry the sparse list is
+non-negative, sorted, with a gap between consecutive blocks (adjacent blocks were merged),
+every block ends inside the int64 range, and both iteration cursors point into their lists. -/
+theorem sparse_list_wellformed (ops : List Op) (e : Entry) (hr : run new ops = some e) :
+    SparseWF e.sparse ∧ (∀ k, e.sparse_p = some k → k < e.sparse.length) ∧ e.xattr_p ≤ e.xattrs.length :=
+  run_invariant ListsOK (fun e e' op hs h => listsOK_step e e' op hs h) ops new e hr
+    ⟨sparseWF_nil, by simp [new], by simp [new]⟩
+
+example : ∃ e, run new [.setSize 100, .sparseAdd 0 10, .sparseAdd 10 5, .sparseAdd 30 5, .sparseAdd 20 5, .sparseAdd 40 70] = some e ∧
+    e.sparse = [(0, 15), (30, 5)] := ⟨_, rfl, by decide⟩
+
+/-- A block is only ever added (or an existing last block extended) inside the size the
+entry has at that moment. -/
+theorem sparse_add_within_size (sz : Int) (l : List (Int × Int)) (o len : Int) :
+    ∀ b ∈ sparseAddL sz l o len, b ∈ l ∨ (b.1 + b.2 ≤ sz ∧ b.1 + b.2 = o + len) := by
+  intro b hb
+  unfold sparseAddL at hb
+  split at hb; · exact Or.inl hb
+  split at hb; · exact Or.inl hb
+  rename_i h0 h1
+  simp only [Bool.or_eq_true, decide_eq_true_eq, not_or, Int.not_lt] at h0 h1
+  have hnew : b = (o, len) → b ∈ l ∨ (b.1 + b.2 ≤ sz ∧ b.1 + b.2 = o + len) := by
+    intro h; subst h; exact Or.inr ⟨by simp only; omega, rfl⟩
+  split at hb
+  · rename_i so sl hlast
+    split at hb; · exact Or.inl hb
+    split at hb
+    · rename_i h3
+      split at hb; · exact Or.inl hb
+      simp only [beq_iff_eq] at h3
+      rcases List.mem_append.mp hb with hb | hb
+      · exact Or.inl (List.dropLast_subset l hb)
+      · simp only [List.mem_singleton] at hb; subst hb
+        exact Or.inr ⟨by simp only; omega, by simp only; omega⟩
+    · rcases List.mem_append.mp hb with hb | hb
+      · exact Or.inl hb
+      · exact hnew (by simpa using hb)
+  · rcases List.mem_append.mp hb with hb | hb
+    · exact Or.inl hb
+    · exact hnew (by simpa using hb)
+
+/-- `sparse_count`/`sparse_reset`: one block at offset 0 that covers the whole file is not
+a sparse file — it is dropped and 0 returned; anything else is counted as it is. -/
+theorem sparse_count_rule (e : Entry) :
+    (sparseWhole (size e) e.sparse = true → (sparseCount e).2 = 0 ∧ (sparseCount e).1.sparse = []) ∧
+    (sparseWhole (size e) e.sparse = false → (sparseCount e).2 = e.sparse.length ∧ (sparseCount e).1 = e) := by
+  rw [sparseCount_fst, sparseCount_snd]
+  constructor <;> intro h <;> simp [h, sparseClear]
+
+example : (sparseCount (sparseAdd (setSize new 10) 0 10)).2 = 0 ∧ (sparseCount (sparseAdd (setSize new 10) 0 9)).2 = 1 := by
+  decide
+
+/-- `xattr_reset` followed by `xattr_next` until it reports the end enumerates exactly the
+attribute list, most recently added first. -/
+theorem xattr_iteration (e : Entry) : xattrDrain (xattrReset e).2 (xattrReset e).1 = e.xattrs := by
+  rw [xattrDrain_spec _ _ (by simp [xattrReset]) (by simp [xattrReset])]
+  simp [xattrReset]
+
+/-- `sparse_reset` followed by `sparse_next` until it reports the end enumerates the sparse
+list as `sparse_count` leaves it (empty when one block covered the whole file). -/
+theorem sparse_iteration (e : Entry) :
+    sparseDrain e.sparse.length (sparseReset e).1 = (sparseCount e).1.sparse := sparse_iteration_aux e
+
+example : xattrDrain 5 (xattrReset (xattrAdd (xattrAdd new [97] [1]) [98] [2])).1 = [([98], [2]), ([97], [1])] := by decide
+
+/-! ## clones -/
+
+/-- **clone_eq.**  A clone is indistinguishable from the original through every getter
+(after fixes 66c54dc and 387042f), provided the original's cached `struct stat` is not
+stale — which `clone_eq_history` shows is always the case. -/
+theorem clone_eq (e : Entry) (hc : StatCoherent e) (g : Getter) : obs g (clone e) = obs g e := by
+  cases g
+  case stat =>
+    simp only [obs, stat_snd, clone, cond_false]
+    cases hv : e.stat_valid
+    · rfl
+    · simp only [cond_true, hc hv]; rfl
+  case sparseCount => simp only [obs, (sparseCount_congr (clone e) e rfl rfl).1]
+  case sparseBlocks => simp only [obs, (sparseCount_congr (clone e) e rfl rfl).2]
+  all_goals rfl
+
+theorem clone_eq_history (ops : List Op) (e : Entry) (hr : run new ops = some e) (g : Getter) :
+    obs g (clone e) = obs g e :=
+  clone_eq e (run_invariant StatCoherent (fun e e' op hs h => statCoherent_step e e' op hs h) ops new e hr
+    (statCoherent_invalid _ rfl)) g
+
+/-- The unrepaired clone re-validated the sparse blocks against the current size and listed
+the extended attributes backwards: its model, and the two witnesses. -/
+def cloneUnfixed (e : Entry) : Entry :=
+  let c : Entry := { e with stat_valid := false, stat_cache := {}, xattr_p := 0, sparse_p := none,
+                            sparse := [], xattrs := e.xattrs.reverse }
+  e.sparse.foldl (fun c b => sparseAdd c b.1 b.2) c
+theorem unfixed_clone_differs :
+    (∃ e, run new [.setSize 100, .sparseAdd 10 20, .unsetSize] = some e ∧
+      obs .sparseCount (cloneUnfixed e) ≠ obs .sparseCount e) ∧
+    (∃ e, run new [.xattrAdd [97] [1], .xattrAdd [98] [2]] = some e ∧
+      obs .xattrList (cloneUnfixed e) ≠ obs .xattrList e) :=
+  ⟨⟨_, rfl, by decide⟩, ⟨_, rfl, by decide⟩⟩
+
+/-- who a call is made on, once a clone exists -/
+inductive Side | original | copy
+  deriving DecidableEq, Repr
+
+def stepPair (p : Entry × Entry) (c : Side × Op) : Option (Entry × Entry) :=
+  match c.1 with
+  | .original => (step p.1 c.2).map fun e => (e, p.2)
+  | .copy => (step p.2 c.2).map fun e => (p.1, e)
+
+def runPair (p : Entry × Entry) : List (Side × Op) → Option (Entry × Entry)
+  | [] => some p
+  | c :: cs => match stepPair p c with
+    | none => none
+    | some p' => runPair p' cs
+
+def callsOn (s : Side) (cs : List (Side × Op)) : List Op := (cs.filter (·.1 == s)).map (·.2)
+
+/-- **clone_independent.**  Later changes to either object do not affect the other: after
+any interleaving of calls on the original and on the clone, each of the two is what its
+own calls alone make of it.  (This is the value-level statement; that the C objects share
+no heap memory is a runtime fact which the engine checks under ASan on every generated
+history, see tools/props/C14.py.) -/
+theorem clone_independent (cs : List (Side × Op)) (p q : Entry × Entry) (h : runPair p cs = some q) :
+    run p.1 (callsOn .original cs) = some q.1 ∧ run p.2 (callsOn .copy cs) = some q.2 := by
+  induction cs generalizing p with
+  | nil => simp only [runPair, Option.some.injEq] at h; subst h; exact ⟨rfl, rfl⟩
+  | cons c cs ih =>
+    obtain ⟨s, op⟩ := c
+    simp only [runPair] at h
+    cases s
+    · simp only [stepPair] at h
+      cases hs : step p.1 op with
+      | none => simp [hs] at h
+      | some m =>
+        simp only [hs, Option.map_some] at h
+        obtain ⟨h1, h2⟩ := ih (m, p.2) h
+        refine ⟨?_, ?_⟩
+        · simp only [callsOn, List.filter_cons, beq_self_eq_true, if_true, List.map_cons, run_cons, hs, Option.bind_some]
+          exact h1
+        · simpa [callsOn, List.filter_cons] using h2
+    · simp only [stepPair] at h
+      cases hs : step p.2 op with
+      | none => simp [hs] at h
+      | some m =>
+        simp only [hs, Option.map_some] at h
+        obtain ⟨h1, h2⟩ := ih (p.1, m) h
+        refine ⟨?_, ?_⟩
+        · simpa [callsOn, List.filter_cons] using h1
+        · simp only [callsOn, List.filter_cons, beq_self_eq_true, if_true, List.map_cons, run_cons, hs, Option.bind_some]
+          exact h2
+
+example : ∃ q, runPair (setSize new 5, clone (setSize new 5))
+    [(.original, .setSize 9), (.copy, .xattrAdd [1] [2]), (.original, .clear)] = some q ∧
+    size q.2 = 5 ∧ q.1.xattrs = [] := ⟨_, rfl, by decide⟩
 
 end LA.C14
